@@ -84,7 +84,7 @@ def coq_rdoc(c: dict, encoding: str) -> str:
 
 
 MANIFEST = dict(
-    technique='Rocq proof (binary DMX body round trip for versions 0-5; type-code round trip; fixed-width value codecs through the shared struct model incl. the TIME codec over exact rationals with a proved binary64 rounding model; typed binary documents; KeyValues2 on the shared tokenizer model: reference decision tables, flat layout text -> tokens -> document -> graph (fix-up pass), nested layout with the full parser recursion by mutual nested induction; value strings through C05\'s exact %.6f model; KV1 bridge; round 3: the ordered dict of members of an element of members below the binary document - attribute count = records written for every history of the mapping API, export of the real dicts = export of the document they denote; the dict the readers build is keyed by the casefolded names and is the canonical form of the exported dict; KeyValues2 at the level of the dict: what the reader builds from the records the writer wrote denotes the same element) + ast translator (normalising: helper inlining, single-use locals, else-after-return, Struct constants, loop vs comprehension, locals by role) with 73 kernel-checked instance obligations + seven vm_compute correspondences (byte-exact binary, scalar codecs, KV2 flat / nested text exact, keyword predicate, value strings, KV1 bridge) + isomorphism oracle on real graphs; round 4: the root selection of export_kv2 (use counts, threshold, keyword rule, exported element, flat) read from the source as a generated rootcfg and the graph -> tree-of-blocks step modelled and proved (every reachable element written exactly once, the writer\'s recursion total, the tree carried by the text, cull_uuid = erasure of inline ids), one statement of the whole property per encoding (c14_property_binary, c14_property_kv2), translator locals matched by the role of their binding site, a time limit around every call into the implementation; round 5: the isomorphism of the nested KeyValues2 round trip written out (renumbering by id, proved for all graphs and evaluated in the kernel on the graph the real parser returns), cull_uuid output proved independent of the ids of inline elements, parse_bin read entirely by the role of its locals and the module-level converters alpha-normalised by binding order, 73 instance obligations',
+    technique='Rocq proof (binary DMX body round trip for versions 0-5; type-code round trip; fixed-width value codecs through the shared struct model incl. the TIME codec over exact rationals with a proved binary64 rounding model; typed binary documents; KeyValues2 on the shared tokenizer model: reference decision tables, flat layout text -> tokens -> document -> graph (fix-up pass), nested layout with the full parser recursion by mutual nested induction; value strings through C05\'s exact %.6f model; KV1 bridge; round 3: the ordered dict of members of an element of members below the binary document - attribute count = records written for every history of the mapping API, export of the real dicts = export of the document they denote; the dict the readers build is keyed by the casefolded names and is the canonical form of the exported dict; KeyValues2 at the level of the dict: what the reader builds from the records the writer wrote denotes the same element) + ast translator (normalising: helper inlining, single-use locals, else-after-return, Struct constants, loop vs comprehension, locals by role) with 74 kernel-checked instance obligations + seven vm_compute correspondences (byte-exact binary, scalar codecs, KV2 flat / nested text exact, keyword predicate, value strings, KV1 bridge) + isomorphism oracle on real graphs; round 4: the root selection of export_kv2 (use counts, threshold, keyword rule, exported element, flat) read from the source as a generated rootcfg and the graph -> tree-of-blocks step modelled and proved (every reachable element written exactly once, the writer\'s recursion total, the tree carried by the text, cull_uuid = erasure of inline ids), one statement of the whole property per encoding (c14_property_binary, c14_property_kv2), translator locals matched by the role of their binding site, a time limit around every call into the implementation; round 5: the isomorphism of the nested KeyValues2 round trip written out (renumbering by id, proved for all graphs and evaluated in the kernel on the graph the real parser returns), cull_uuid output proved independent of the ids of inline elements, parse_bin read entirely by the role of its locals and the module-level converters alpha-normalised by binding order, the codec argument of the binformat helpers (another module) read from the source, 74 instance obligations, a second-generation oracle (the parsed graph modified through the API and exported again) and an import guard in the search',
     text='Theorems in Props/C14.v (99; all closed under the global context; 73-90 from round 4 are described at the end): the attribute type byte decodes to the same (type, array?) pair; parse_bin (export_bin d) = d for every expressible document (versions 0-5); every fixed-width value representable in its wire type (int32, binary32 patterns, booleans, tick-exact times, colour bytes, vectors, angles in [0,360), quaternions, the 3x3 part of a matrix) is packed by the generated struct format into calcsize bytes and unpacked to the same value (Bin/Struct unpack_pack instantiated); round((k/S)*S) = k in binary64 for every 32-bit tick count, with |rn64 x - x| <= 2^-53 |x| proved for the executable rounding model, and int() instead of round() refuted by a computed witness; typed documents survive lower -> export_bin -> parse_bin -> lift; a KV2 reference decision table meeting its condition writes NULL / stub / root / inline exactly as the format needs and the two sites agree (dropping `or is_stub` refuted); the flat-layout text of any document re-tokenises (C02 quoted_embedding composed) and re-parses to the document, and linking UUID references gives back the graph (sharing, cycles, NULL, stubs) for pairwise distinct ids; the nested-layout text re-parses to the tree of inline blocks at any depth provided no inline element has an attribute type keyword as its type (refuted otherwise: the defect repaired in this round); FLOAT / vector component text denotes the value rounded half-even at 6 places, vector texts split into their components, int and colour texts parse back; to_kv1 (from_kv1 t) = t. All configurations (type codes, sizes, struct formats, TIME rounding function and scales, MATRIX slot layout, codec per string site, stub payload, KV2 escaping / codec per field, the two reference if-chains, the keyword-root rule, Tokenizer kwargs, ValueType keywords, _fmt_float and the vector / colour string converters, KV1 constants) are regenerated from dmx.py (tokenizer tables from tokenizer.py) on every run and the premises are kernel-checked as named obligations. The models are compared with the implementation on generated inputs on every run; generated graphs (DAGs, cycles, stubs, NULLs, all types, empty arrays, 3 unicode modes, versions 1-5, KV2 flat/nested/cull_uuid) are round-tripped through Element.parse and compared up to isomorphism. Round 3 (47-72): for every count expression / loop filters / Element.name meeting cnt_cfg_ok and every dict with pairwise distinct keys the attribute count export_binary writes equals the number of records it writes, with or without the name member; every operation of the mapping API (clear, del, pop, popitem, name setter, item assignment, setdefault) keeps the keys distinct and the dict keyed by the casefolded names, hence every history on a fresh element; export_raw on the real dicts = export_bin of the document they denote and parses back to it (versions 0-5); len(elem) - 1 and a record loop testing attr.name are refuted by computed witnesses; from_kv1 with both name tests on the casefolded name is the proved bridge, either test on the case-preserved name is refuted; the dict a reader builds from a document element is the name member followed by one member per record under its casefolded name, elem[a.name] finds every attribute, it denotes the document element, and composed with the export theorems it is the canonical form of the exported dict; a reader storing under the name as written is refuted. KeyValues2 at the level of the dict: for every dict keyed by the casefolded names whose name member is a string, either name test of the reader and every skip test of the writer that skips only the member keyed name, the dict read from the records written is the name member holding Element.name followed by every other member under its key in order, so it denotes the same element - for every API history; a name member spelled NAME keeps its spelling through KeyValues2 (computed example); a loop skipping another key is refuted. Round 4 (73-90): a root rule meeting root_rule_ok decides exactly flat / used twice or more / keyword type / exported element, so an element written inline is referred to at most once; for any root predicate every block of the tree nest_doc gives is, read back (unnest), an element of the graph with its references by id, and every element reachable from the exported one is written; with the root rule no element is written twice (blocks counted level by level below the roots; the holder of an inline element is unique), the recursion ends with fuel length g + 1, the tree meets ndoc_ok (inline blocks have no keyword type because such elements are roots), cull_uuid erases the ids of inline blocks only and no reference names an inline block; flatten (link d) = d for every document (the graph the fix-up pass builds is determined by the registered elements up to numbering); hence c14_property_kv2: for every graph with distinct ids whose elements are all reachable, the flat text parses and links back to the graph, and the nested tree exists, is parsed back from its text, holds every element once with the exported one first and is a permutation of the flat document whose references resolve to the graph; count > 2 and a missing name line for empty names are refuted by computed witnesses. c14_property_binary: the bytes written from the real dicts (any API history) whose values are the packed form of representable typed values parse to a document that unpacks to those values and gives the canonical reader dicts. Round 5 (91-99): kv2_permuted_flat_documents_are_isomorphic: two graphs (distinct ids, references in range, stub ids not element ids) whose flat documents are permutations of each other are isomorphic by the renumbering by id (by_id): injective, element by_id(i) of the one is element i of the other with every element reference j replaced by by_id(j), everything else equal; kv2_graph_iso_identity: the identity renumbering relates only equal graphs; kv2_fixup_builds_a_graph: what the fix-up pass builds meets graph_ok when no id was registered twice; c14_property_kv2_iso: under the hypotheses of c14_property_kv2 the tree of blocks is parsed back from its text and the graph the reader builds is a graph isomorphic to the exported one by by_id, which fixes the exported element; kv2_graph_iso_test_sound: the boolean graph_iso_b the check evaluates on the graph of the real parser implies graph_iso; kv2_culled_export_ignores_inline_ids / _is_erasure_of_either: the tree written with cull_uuid is the same for all graphs that differ only in the ids of inline elements and is the erasure of the unculled tree of each (the fresh UUIDs the reader gives id-less blocks are not modelled); two computed examples.',
     note='Trusted: Coq kernel + vm_compute, translate/c14_dmx.py and translate/c02_tables.py, the hand models Fmt/DmxBin.v, Fmt/DmxKv1.v, Fmt/DmxScalar.v, Fmt/DmxKv2.v, Fmt/DmxKv2Nested.v, Fmt/DmxValText.v (each tied by a differential run on every run) and the shared Bin/Struct.v, Text/Tokenizer.v, Num/Dec6.v; CPython codecs / uuid (str.encode/decode and UUID text are parameters or opaque texts); binary64 arithmetic is rn64 of the exact result (no exponent range; compared with CPython float * and / on every run); a binary32 value is its bit pattern (harness converts with struct "<f"); FrozenAngle normalisation identity on [0,360) is a hypothesis checked on sampled patterns; breadth-first numbering of the object graph is done by the harness and checked by the byte-exact comparison. Not modelled (oracle only): float(text) / str(float) / hex / bool strings, malformed KV2 input, the DMX header line and unicode flag, format name/version. Round 3: the members-level models Fmt/DmxMembers.v / Fmt/DmxMembersParse.v are tied by correspondence:binary (export_raw on the real dicts byte-exact; the dicts of the parsed elements, for ASCII names) and by the translated count expression, loop filters, Element.name, Element.__init__ and the key expression of the three member stores; Fmt/DmxMembersKv2.v is tied by the translated skip test of _export_kv2, the name test of _parse_kv2_element and correspondence:binary code 6 (keys and spellings after a flat KeyValues2 round trip, ASCII names); the dict-level KeyValues2 theorems are not composed with the text-level ones (records -> text -> records is theorems 28 / 32 on documents of name + records); the member keyed "name" is the name of the element whatever its spelling or type (an attribute assigned as \'NAME\' is that member). Round 4: Fmt/DmxKv2Graph.v (nest_doc / unnest / is_root) is tied by the translated root rule (use_count initial value, first-use value, increment, stub skip, comparison and threshold, keyword update, roots.add(self.uuid), flat branch, the writing loop and the arguments handed to _export_kv2), the id-line condition and the unconditional name line of _export_kv2, and by correspondence:kv2-nested-text codes 6-8 (nest_doc of the real object graph renders to the exported text, with and without cull_uuid; every element written once; unnest of the parsed tree = the object graph Element.parse returned); the reader-dict correspondences now run on code points with the regenerated casefold table (names outside ASCII included); the graph-level KeyValues2 theorems are on documents of name + records (the dict-level theorems 68-72 stay a separate layer); the step from the elements the reader registers to object identity (an inline block is the attribute value itself, a reference is resolved through id_to_elem) is modelled as resolution by id, which is the same thing because no id is registered twice (written_once). Print Assumptions is asked once for the conjunction of all theorems of Props/C14.v (per-theorem fallback if it is not closed). No known finding left: the round-1 finding (inline element whose type is an attribute type keyword) is repaired in the repo branch. Round 5: what remains semantic/trusted in the whole-property theorems is listed in docs/C14.md (Round 5, Hypotheses): codec pair and str_ok, UUID text, rn64 = CPython float arithmetic, FrozenAngle identity below 360, the value strings opaque in the KeyValues2 document models, reachability of every element from the exported one, the name member is the element name; parse_bin is now read by the role of its locals (a constructor-argument swap fails closed); gen_bin_strings_stored_as_read is a syntactic reading (assignments to the four string locals are read_nullstr calls or string-table entries).',
 )
